@@ -68,11 +68,13 @@ def jobs(prop: str, tier: str, seed: int):
         b = dict(depth=2, width=2, strlen=2, budget=1)
         for o in ({"call_schema": [list(c) for c in cs]}, {"call_validators": True}, {"call_schema": [list(c) for c in cs], "call_validators": True}):
             out.append(dict(harness=prop, pool="data", pid=pid, opts=o, bounds=b, budget_s=30 if tier == "quick" else 120))
-    for pid in pools.ids("data", tier):
+    for pid in pools.ids("data", tier) + pools.random_ids(seed, 8 if tier == "quick" else 60):
         spec, _ = pools.get("data", pid)
         optsets = [{}]
         if has_obj(spec):
             optsets = OBJ_OPTS if tier == "thorough" else OBJ_OPTS[:4]
+        if pid.startswith("rnd:"):
+            optsets = [{}]
         big = n_positions(spec) >= 8
         for o in optsets:
             if tier == "quick":
